@@ -501,6 +501,28 @@ class _IndexAsCubeSlicer:
         if item[common_axis] == slice(None):
             # Create item for slicing through the default API and slice.
             return self.seq[tuple([slice(None)] + item)]
+        # Interpret the common axis item relative to the length of the concatenated axis,
+        # as numpy would: negative values count from the end, slice bounds are clipped,
+        # integers outside the axis are an error and steps are not supported.
+        cube_like_length = sum(common_axis_lengths)
+        if isinstance(item[common_axis], numbers.Integral):
+            common_axis_index = int(item[common_axis])
+            if common_axis_index < 0:
+                common_axis_index += cube_like_length
+            if not 0 <= common_axis_index < cube_like_length:
+                raise IndexError(f"index {item[common_axis]} is out of bounds for common axis "
+                                 f"with cube-like length {cube_like_length}")
+            item[common_axis] = common_axis_index
+        elif isinstance(item[common_axis], slice):
+            if item[common_axis].step not in (None, 1):
+                raise IndexError("Slicing the common axis with a step is not supported.")
+            start, stop, _ = item[common_axis].indices(cube_like_length)
+            if stop <= start:
+                # Nothing selected: no cube contributes to the result.
+                new_common_axis = common_axis - sum([isinstance(i, numbers.Integral)
+                                                     for i in item[:common_axis]])
+                return type(self.seq)([], meta=self.seq.meta, common_axis=new_common_axis)
+            item[common_axis] = slice(start, stop)
         if isinstance(item[common_axis], numbers.Integral):
             # If common_axis item is an int or return an NDCube with dimensionality of N-1
             sequence_index, common_axis_index = \
